@@ -71,6 +71,9 @@ int main(int argc, char **argv) {
     SplitMix g(strtoull(argv[3], nullptr, 10)); long long count = atoll(argv[4]); int m = argc > 5 ? atoi(argv[5]) : 0;
     for (long long it = 0; it < count; ++it) {
       GenOpts o; o.nets = true; o.utilLo = 20; o.utilHi = 85; o.maxCells = 12;
+      // 2 circuits in 3: nets of weight 0 and of tiny weight (2^-1 .. 2^-140) among the others (code in <nets>: see cgen.hpp); the
+      // from-scratch wirelength the check compares value() with counts every net, as Circuit::hpwl() does
+      if (it % 3) { o.zeroWeightPct = 25; o.tinyWeightPct = 10; }
       if (m & 2) o.turned = false; if (m & 16) o.polarity = false;
       TCircuit t = genCircuit(g, o);
       std::string pre; int npre = 0;   // ops placed before the random ones
@@ -107,8 +110,8 @@ int main(int argc, char **argv) {
         long long base = std::max<long long>(0, (want - have) / (2 * n0) + 1);
         for (int c = 0; c < n0; ++c) {
           long long nL = base + std::max<long long>(pull[c], 0), nR = base + std::max<long long>(-pull[c], 0);
-          for (long long k = 0; k < nL; ++k) { t.nets.push_back({{c, 0, 0}, {n0, 0, 0}}); t.netw2.push_back(2); }
-          for (long long k = 0; k < nR; ++k) { t.nets.push_back({{c, 0, 0}, {n0 + 1, 0, 0}}); t.netw2.push_back(2); }
+          for (long long k = 0; k < nL; ++k) { t.nets.push_back({{c, 0, 0}, {n0, 0, 0}}); t.netw2.push_back(genNetW2(g, o, 2)); }
+          for (long long k = 0; k < nR; ++k) { t.nets.push_back({{c, 0, 0}, {n0 + 1, 0, 0}}); t.netw2.push_back(genNetW2(g, o, 2)); }
         }
         reorderFirst();
       }
@@ -121,7 +124,7 @@ int main(int argc, char **argv) {
         int n0 = (int)t.cells.size(); int npads = (int)g.uni(2, 3); int first = (int)t.cells.size();
         for (int k = 0; k < npads; ++k) { long long x = (k % 2 ? 1 : -1) * (3900000LL + g.uni(0, 100000)); t.cells.push_back({x, g.uni(-50, 50), 1, 1, 0, 0, 1, 0}); }
         int nn = (int)g.uni(600, 800);
-        for (int k = 0; k < nn && n0 > 0; ++k) { int c = (int)g.uni(0, n0 - 1); t.nets.push_back({{c, 0, 0}, {first + (int)g.uni(0, npads - 1), 0, 0}}); t.netw2.push_back(2); }
+        for (int k = 0; k < nn && n0 > 0; ++k) { int c = (int)g.uni(0, n0 - 1); t.nets.push_back({{c, 0, 0}, {first + (int)g.uni(0, npads - 1), 0, 0}}); t.netw2.push_back(genNetW2(g, o, 2)); }
       }
       int n = (int)t.cells.size(); int nops = (int)g.uni(npre ? 0 : 1, npre ? 5 : 8);
       printf("DO %s %s %d%s", showRowsCells(t).c_str(), showNets(t).c_str(), nops + npre, pre.c_str());
